@@ -1,5 +1,6 @@
 import Sif.Driver.Util
 import Sif.Model.Clp.Calc
+import Sif.Model.Clp.Units
 import Sif.Spec.C03
 namespace Sif.Drv
 open Sif Sif.Clp
@@ -9,6 +10,21 @@ def handleCalc : List String → Option String
       let t ← parseBool t; let X ← parseNat X; let x ← parseNat x; let Y ← parseNat Y
       let r ← parseDec r; let f ← parseDec f
       some (showM (fun (p : Nat × Nat) => s!"{p.1} {p.2}") (calcSwapResult t X x Y r f))
+  | ["poolunits", P, R, A, r, a, fS, fB, p] => do
+      let P ← parseNat P; let R ← parseNat R; let A ← parseNat A; let r ← parseNat r; let a ← parseNat a
+      let fS ← parseDec fS; let fB ← parseDec fB; let p ← parseDec p
+      some (match calculatePoolUnits P R A r a fS fB p with
+        | .error _ => "panic"
+        | .ok none => "err"
+        | .ok (some u) =>
+          let st := match u.status with | .sellNative => 0 | .buyNative => 1 | .noSwap => 2
+          s!"ok {u.poolUnits} {u.lpUnits} {st} {u.swapAmount}")
+  | ["withdraw", P, R, A, lp, w] => do
+      let P ← parseNat P; let R ← parseNat R; let A ← parseNat A; let lp ← parseNat lp; let w ← parseNat w
+      some (showM (fun (t : Nat × Nat × Nat) => s!"{t.1} {t.2.1} {t.2.2}") (calculateWithdrawal P R A lp w))
+  | ["withdrawunits", P, R, A, lp, w] => do
+      let P ← parseNat P; let R ← parseNat R; let A ← parseNat A; let lp ← parseNat lp; let w ← parseNat w
+      some (showM (fun (t : Nat × Nat × Nat) => s!"{t.1} {t.2.1} {t.2.2}") (calculateWithdrawalFromUnits P R A lp w))
   | ["chk", "c03.leg", _tag, t, X, x, Y, r, f, y] => do
       let t ← parseBool t; let X ← parseNat X; let x ← parseNat x; let Y ← parseNat Y
       let r ← parseDec r; let f ← parseDec f; let y ← parseNat y
